@@ -75,6 +75,7 @@ func (fs *FileSystemDataStore) CreateFile(ctx context.Context) (io.WriteCloser, 
 		finalPath := filepath.Join(fs.rootDir, base+".dat")
 		tempPath := filepath.Join(fs.rootDir, base+".tmp")
 
+		verifFS("create_excl", finalPath)
 		reservation, err := os.OpenFile(finalPath, os.O_WRONLY|os.O_CREATE|os.O_EXCL, 0o600)
 		if err != nil {
 			if os.IsExist(err) {
@@ -88,8 +89,10 @@ func (fs *FileSystemDataStore) CreateFile(ctx context.Context) (io.WriteCloser, 
 			return nil, nil, err
 		}
 
+		verifFS("create_excl", tempPath)
 		file, err := os.OpenFile(tempPath, os.O_WRONLY|os.O_CREATE|os.O_EXCL, 0o600)
 		if err != nil {
+			verifFS("remove", finalPath)
 			// Release the reservation: this attempt owns no ".tmp" to ever
 			// rename over it.
 			os.Remove(finalPath)
@@ -133,10 +136,12 @@ type renameOnCloseFile struct {
 }
 
 func (f *renameOnCloseFile) Write(p []byte) (int, error) {
+	verifFS("write", f.tempPath)
 	return f.file.Write(p)
 }
 
 func (f *renameOnCloseFile) Close() error {
+	verifFS("fsync", f.tempPath)
 	if err := f.file.Sync(); err != nil {
 		f.file.Close()
 		return err
@@ -144,11 +149,13 @@ func (f *renameOnCloseFile) Close() error {
 	if err := f.file.Close(); err != nil {
 		return err
 	}
+	verifFS("rename", f.tempPath)
 	if err := os.Rename(f.tempPath, f.finalPath); err != nil {
 		return err
 	}
 	// fsync the directory so the rename itself survives power loss: once an
 	// external metastore commits the pointer, the publish must be durable.
+	verifFS("dirsync", f.finalPath)
 	if err := syncDir(filepath.Dir(f.finalPath)); err != nil {
 		return err
 	}
@@ -168,9 +175,11 @@ func (f *renameOnCloseFile) Abort() error {
 	// no information here.
 	f.file.Close()
 	var errs []error
+	verifFS("remove", f.tempPath)
 	if err := os.Remove(f.tempPath); err != nil && !os.IsNotExist(err) {
 		errs = append(errs, err)
 	}
+	verifFS("remove", f.finalPath)
 	if err := os.Remove(f.finalPath); err != nil && !os.IsNotExist(err) {
 		errs = append(errs, err)
 	}
@@ -199,11 +208,13 @@ func (fs *FileSystemDataStore) TombstoneFile(ctx context.Context, filePointerByt
 	finalPath := string(filePointerBytes)
 
 	var errs []error
+	verifFS("remove", finalPath)
 	if err := os.Remove(finalPath); err != nil && !os.IsNotExist(err) {
 		errs = append(errs, err)
 	}
 	if strings.HasSuffix(finalPath, ".dat") {
 		tempPath := strings.TrimSuffix(finalPath, ".dat") + ".tmp"
+		verifFS("remove", tempPath)
 		if err := os.Remove(tempPath); err != nil && !os.IsNotExist(err) {
 			errs = append(errs, err)
 		}
@@ -282,6 +293,7 @@ func (fs *FileSystemDataStore) GetMaybeFilesForQuery(ctx context.Context, query 
 func (fs *FileSystemDataStore) Update(ctx context.Context, writes []WriteOperation, deletes []DeleteOperation) error {
 	// writes are no-op, it's stored in the files
 	for _, delete := range deletes {
+		verifFS("remove", string(delete.FilePointerBytes))
 		os.Remove(string(delete.FilePointerBytes))
 	}
 	return nil
